@@ -262,8 +262,8 @@ impl HistoryEngine {
     pub fn new(prop: &str, tier: &str) -> HistoryEngine {
         let thorough = tier == "thorough";
         let mut cfg = if thorough { GenCfg::thorough() } else { GenCfg::quick() };
-        cfg.max_departures = if thorough { 8 } else { 5 };
-        cfg.max_total_need = if thorough { 16 } else { 10 };
+        cfg.max_departures = if thorough { 8 } else { 7 };
+        cfg.max_total_need = if thorough { 16 } else { 14 };
         cfg.max_need = 3;
         let walk = prop == "C11";
         if walk {
@@ -271,7 +271,7 @@ impl HistoryEngine {
             cfg.max_departures = if thorough { 6 } else { 4 };
             cfg.max_total_need = if thorough { 10 } else { 7 };
         }
-        HistoryEngine { prop: prop.to_string(), cfg, max_ops: if thorough { 40 } else { 12 }, walk, max_levels: if thorough { 12 } else { 5 } }
+        HistoryEngine { prop: prop.to_string(), cfg, max_ops: if thorough { 40 } else { 24 }, walk, max_levels: if thorough { 12 } else { 5 } }
     }
 }
 
